@@ -22,10 +22,10 @@ import (
 	"sort"
 	"strings"
 
+	"github.com/cosmos/gogoproto/proto"
 	secp "github.com/decred/dcrd/dcrec/secp256k1/v4"
 	secpecdsa "github.com/decred/dcrd/dcrec/secp256k1/v4/ecdsa"
 	ethcrypto "github.com/ethereum/go-ethereum/crypto"
-	"github.com/cosmos/gogoproto/proto"
 	"golang.org/x/crypto/sha3"
 
 	sdk "github.com/cosmos/cosmos-sdk/types"
@@ -274,6 +274,8 @@ type env struct {
 	keys []attKey
 	ids  map[[2]int]string // (n,q) -> client id
 	cnt  struct{ evals, nontrivial int }
+
+	sampled map[string]bool
 }
 
 func (e *env) addrs(n int) []string {
@@ -386,6 +388,18 @@ func (e *env) judge(kind, key string, got outcome, nOK, eOK bool, replay any) {
 		c.Hist("between_statement_and_strict", kind+":accepted")
 	case nOK && !eOK:
 		c.Hist("between_statement_and_strict", kind+":rejected")
+	}
+	if e.sampled == nil {
+		e.sampled = map[string]bool{}
+	}
+	for _, cls := range []struct {
+		name string
+		hit  bool
+	}{{kind + ":accepted", got.OK}, {kind + ":statement-holds-but-rejected", !got.OK && nOK}, {kind + ":rejected", !got.OK && !nOK && e.cnt.evals > 2000}} {
+		if cls.hit && !e.sampled[cls.name] {
+			e.sampled[cls.name] = true
+			c.Sample(map[string]any{"class": cls.name, "case": replay, "statement_predicate": nOK, "strict_predicate": eOK, "error": got.Err})
+		}
 	}
 	if got.OK {
 		c.Hist("outcomes", kind+":accepted")
